@@ -372,7 +372,8 @@ def check_variant(arg):
 
 # ---------------------------------------------------------------------------------------------------- stage + native
 STAGE_OBLIGATIONS = {
-    'C09': ('main_does_not_panic', 'main_rejects_exactly_broken_graphs', 'engine_gets_the_dependency_closure'),
+    'C09': ('main_does_not_panic', 'main_rejects_exactly_broken_graphs', 'engine_gets_the_dependency_closure', 'a_rejected_configuration_deletes_nothing'),
+    'C18': ('main_does_not_panic', 'clean_touches_no_state_outside_the_closure'),
     'C19': ('main_does_not_panic', 'main_rejects_exactly_broken_graphs', 'engine_gets_exactly_the_requested_roots', 'engine_gets_the_dependency_closure'),
     'C14': ('main_does_not_panic', 'a_rejected_configuration_deletes_nothing'),
     'C12': ('main_does_not_panic', 'clean_forgets_the_state_of_the_whole_closure', 'clean_touches_no_state_outside_the_closure'),
@@ -459,9 +460,7 @@ def stage(prop, tier, repo, jobs):
     args = []
     for i, sh in enumerate(shs):
         for rq, cl in cli_variants(sh, tier):
-            if prop in ('C14', 'C12') and not cl:
-                continue
-            if prop == 'C09' and cl:
+            if prop in ('C14', 'C12', 'C18') and not cl:
                 continue
             args.append((prop, i, rq, cl, tier, repo))
     with Pool(min(jobs, max(1, len(args)))) as pool:
